@@ -92,7 +92,7 @@ class C17(core.Prop):
         'scan_positionals_then_options', 'scan_options_then_positionals', 'unknown_option_never_runs', 'no_input_rejected',
         'too_many_positionals_rejected', 'rex_norex_rejected', 'all_fields_rejected', 'per_constraint_contradiction_rejected',
         'output_fields_contradiction_rejected', 'discover_params_exact', 'verify_params_exact', 'detect_params_exact',
-        'tie_tables_wf', 'tie_dests', 'tie_documented_spelling', 'tie_positionals']]
+        'tie_tables_wf', 'tie_dests', 'tie_documented_spelling', 'tie_positionals', 'applicable_perm', 'applicable_append', 'applicable_of_mem', 'not_applicable_iff', 'tie_applicable_exts']]
     quick_n = 200
     thorough_n = 4000
     level = 'proof'
@@ -172,19 +172,45 @@ class C17(core.Prop):
         return json.dumps(case, sort_keys=True, default=str) if case['frame']['nrows'] >= 2 else None
 
     # ---------------------------------------------------------------- correspondence (flags -> keywords)
+    PATHS = ['in.csv', 'c.tdda', 'o.csv', 'extra', '-', 'dir.v2/data', '.csv', 'a.b/.hidden', 'x.CSV', 'x.csv.bak', 'x.parquet',
+             'archive.tar.json', 'noext', '..yaml', '...', 'x.', 'x.tsv/', 'x.tsv/y', '/abs/path.psv', 'strict', '0.05', 'a.yaml',
+             'sqlite:t', 'table', '.hidden.json', 'a/b.c/d.e.csv', '']
+
+    def _dispatch_argv(self, case):
+        """the arguments after the command name, some replaced by path-like words (deterministic in the case)"""
+        import random
+        rng = random.Random(json.dumps(case, sort_keys=True))
+        argv = [a if rng.random() < 0.6 else rng.choice(self.PATHS) for a in case['argv']]
+        for _ in range(rng.choice([0, 0, 1, 2])):
+            argv.insert(rng.randint(0, len(argv)), rng.choice(self.PATHS))
+        return argv
+
     def model_ops(self, case):
         if case['kind'] != 'flags':
             return []
-        return [{'op': 'c17.params', 'cmd': case['cmd'], 'argv': case['argv']}]
+        return [{'op': 'c17.params', 'cmd': case['cmd'], 'argv': case['argv']},
+                {'op': 'c17.applicable', 'argv': self._dispatch_argv(case)}]
 
     def impl_outputs(self, case):
+        return [self._impl_params(case), self._impl_applicable(case)]
+
+    def _impl_applicable(self, case):
+        import os
+        from tdda.constraints.pd.extension import TDDAPandasExtension
+        argv = self._dispatch_argv(case)
+        try:
+            return {'applicable': bool(TDDAPandasExtension(list(argv)).applicable()), 'exts': [os.path.splitext(a)[1] for a in argv]}
+        except Exception as e:   # noqa
+            return {'exc': type(e).__name__}
+
+    def _impl_params(self, case):
         rc, out, err, res = quiet_run(PARAMS[case['cmd']], list(case['argv']))
         if rc == 0 and res is not None:
             d = dict(res)
-            return [d]
+            return d
         if rc == 0:
-            return ['exit0']
-        return ['reject' if not str(rc).startswith('EXC') else {'exc': rc}]
+            return 'exit0'
+        return 'reject' if not str(rc).startswith('EXC') else {'exc': rc}
 
     def canon_model(self, case, outs):
         res = []
